@@ -193,6 +193,13 @@ def stuck_detail(s, fv):
 
 
 OPEN_SWITCH = {"C04-F1": "F1", "C04-F2": "F2", "C04-F4": "F4"}          # finding -> switch of AslModel/Crash.lean (Quirks)
+# (findings/C04.json names the switch of each open finding in `model_switch`; this table is the default)
+
+
+def switch_of(f):
+    import crashmodel as cm
+    short = {v: k for k, v in cm.SWITCH.items()}
+    return short.get(f.get("model_switch")) or OPEN_SWITCH.get(f.get("id"))
 LEGACY = {"C04-F1": "redelivered-task-never-requested", "C04-F2": "branch-reply-consumed-before-crash",
           "C04-F4": "nested-join-result-volatile"}
 
@@ -214,7 +221,8 @@ class ModelSide(object):
 
     def __init__(self, chk):
         self.chk = chk
-        self.open = sorted(OPEN_SWITCH[f["id"]] for f in chk.open_findings if f.get("id") in OPEN_SWITCH)
+        self.switch = {f["id"]: switch_of(f) for f in chk.open_findings if switch_of(f)}
+        self.open = sorted(set(self.switch.values()))
         self.runs = []
 
     def add(self, case, between, skel, sched, eo, diverged, problem):
@@ -276,7 +284,7 @@ class ModelSide(object):
             if prob is not None:
                 kind, impl, model, law = prob
                 explained = []
-                for f, sw in OPEN_SWITCH.items():
+                for f, sw in sorted(self.switch.items()):
                     if sw in self.open:
                         m_wo = answers.get((i, tuple(x for x in self.open if x != sw)))
                         # (a model that cannot even follow the engine's handler invocations does not reproduce the run)
@@ -435,19 +443,47 @@ def run(chk):
 def replay(chk, path):
     with open(path) as f:
         rp = json.load(f)
+    import crashmodel as cm
     c = rp["case"]
     scn = [x for x in scenarios(thorough=True) if x.name == c["scenario"]][0]
-    s, ea = start(scn, c["store"] == "shared-store")
+    share = c["store"] == "shared-store"
+    s, ea = start(scn, share)
+    finish(s, ea)
+    ref, _, _ = observe(s, ea)
+    try:
+        skel = cm.skeleton(scn.machine, s.broker.log, ref.get("status") == "FAILED")
+    except cm.Unsupported as e:
+        skel = None
+        print("skeleton: unsupported (%s)" % e)
+    s.close()
+    s, ea = start(scn, share)
+    lab = cm.Labeller(s)
     cr = c["crash"]
     if cr["kind"] == "between-handlers":
         for st in cr["prefix"]:
-            s.do(tuple(st))
-        s.do(("crash", 0))
+            lab.do(tuple(st))
+        lab.do(("crash", 0))
         s.do(("restart", 0))
         finish(s, ea)
+        sched = lab.schedule()
     else:
+        # (the first crash only: a second one, `second`, is part of the run of the check, not of this replay)
         s.broker.crash_plan = ("conn1", cr["n"])
+        while s.steps < 1500 and not s.crashes:
+            st = s.canonical_step()
+            if st is None:
+                break
+            lab.do(st)
+        sched = lab.schedule()
+        sched = cm.upto_last_crash(sched) if sched is not None else None
         finish(s, ea)
+    if skel is not None and sched is not None:
+        chk.lean_stage()
+        opened = sorted(set(switch_of(f) for f in chk.open_findings if switch_of(f)))
+        for sw in [opened, []]:
+            print("model %s:" % (",".join(sw) or "no switch"), common.driver([cm.line(sw, skel, sched)])[0])
+        print("skeleton:", cj(skel))
+        print("schedule:", cj(sched))
     print("final:", cj(explore.final_view(s, ea)), "crashes:", s.crashes, "errors:", s.errors[:1])
     print("requests:", [(q["t"], q["queue"], q["correlation_id"][-4:]) for q in s.rpc_requests])
     print("volatile:", s.snapshot_volatile())
